@@ -44,7 +44,7 @@ func c10Gen(c *vfCtx, emit func(c10Case)) {
 	uni := c10Universe
 	maxN := 4
 	if c.thorough() {
-		uni = append(append([]string{}, uni...), "TestA - 3", "TestAB - 1", "TestA/x - 2")
+		uni = append(append([]string{}, uni...), "TestA - 3", "TestAB - 1", "TestA/x - 2", "TestA/[x] - 1", "TestA/x.snap - 1", "TestA/a:b_%d - 1")
 		maxN = 5
 	}
 	c.bound("id_universe", uni)
